@@ -12,6 +12,9 @@ spec -> impl : TLC checks the WOFF2 rules of specs/Woff2.tla on themselves (Deco
                the first / last word / nowhere, contour sizes / instruction lengths / collection counts at the
                255UInt16 code boundaries, glyphs of up to 300 contours, a rebuilt glyf of 131068 / 131070 /
                131072 bytes (loca short -> long), table lengths at the UIntBase128 byte boundaries.
+               Composite glyphs of 1..3 components are generated with the POSITION of every per-component
+               property varied (family cp): WE_HAVE_INSTRUCTIONS on every subset of the components, argument
+               width / signedness and transform kind per position, the other flag bits rotating.
 impl -> spec : repository fonts re-encoded by the harness encoder with seeded encoder choices (single fonts
                and collections with shared tables), the repository's own .woff2 files and random varint
                byte strings are decoded by allsorts; the recorded events are judged by Trace_Woff2.
@@ -62,6 +65,17 @@ BOUNDARIES_NEEDED = (
        "loca.plain_glyf_over_131000.source_short", "loca.plain_glyf_over_131000.source_long"]
     + ["dir.table_length=%d" % b for b in (13, 127, 128, 16383, 16384)]
     + ["hmtx.n>=31.nhm=n", "hmtx.n>=31.nhm=1", "hmtx.n>=31.nhm=n-1", "hmtx.n>=31.nhm=32"]
+)
+
+# composite position counters (measured by the harness on the generated glyph sets) that must be non-zero
+_MASKS = {1: ["none", "1"], 2: ["none", "1", "2", "1+2"], 3: ["none", "1", "2", "3", "1+2", "1+3", "2+3", "1+2+3"]}
+COMPOSITES_NEEDED = (
+    ["k=%d.instr_at=%s" % (k, m) for k in (1, 2, 3) for m in _MASKS[k]]
+    + ["k=%d.more_components_consistent" % k for k in (1, 2, 3)]
+    + ["pos%dof%d.args=%s_%s" % (j, k, w, x) for k in (1, 2, 3) for j in range(1, k + 1) for w in ("bytes", "words") for x in ("pt", "xy")]
+    + ["pos%dof%d.tr=%s" % (j, k, t) for k in (1, 2, 3) for j in range(1, k + 1) for t in ("none", "scale", "xy", "2x2")]
+    + ["pos%dof%d.bit%d" % (j, k, b) for k in (1, 2, 3) for j in range(1, k + 1) for b in (2, 9, 10, 11, 12)]
+    + ["instr_flag_not_on_last", "hinted_with_zero_instructions", "followed_by_simple_with_instructions", "followed_by_composite"]
 )
 
 FAMILY = [(10, "y8"), (20, "x8"), (84, "4x4"), (120, "8x8"), (124, "12x12"), (128, "16x16")]
@@ -202,14 +216,43 @@ def _run_mc(ctx, binp):
 
 
 def run(ctx):
+    """Violations take precedence over tool problems: whatever was found before a later stage (vacuity guard,
+    self-check, judge) failed is reported (exit 1); a tool error (exit 2) is raised only when there is nothing
+    new to report."""
+    violations, cov = [], {}
+    try:
+        _run(ctx, violations, cov)
+    except Exception as e:        # ToolError, or a driver exception on output it did not expect
+        known = vlib.load_known(ctx.prop)
+        if not any(v.key not in known for v in violations):
+            raise
+        ctx.note("a later stage failed after violations had been found; reporting the violations. Tool problem: %s" % str(e)[:1500])
+        cov.setdefault("states", 0)
+        cov.setdefault("transitions", 0)
+        cov.setdefault("traces_validated_against_impl", 0)
+        cov.setdefault("samples", [])
+        cov["incomplete_run"] = str(e)[:500]
+    vlib.finish(ctx, LEVEL, cov, violations, ASSUMPTIONS)
+
+
+def _run(ctx, violations, cov):
     binp = vlib.build_harness(BIN)
     mc, cases_path, n_cases, samples = _run_mc(ctx, binp)
+    cov.update({"states": mc.distinct, "tlc_states_generated": mc.generated})
 
     # ---- spec -> impl
     mism_path = ctx.path("mismatches.ndjson")
     rep = vlib.run_harness(binp, ["replay", cases_path, mism_path])
     ctx.note("replay: %s" % json.dumps({k: rep[k] for k in ("cases", "vectors", "mismatches", "triplet_entries_exercised",
                                                               "u255_first_bytes_exercised")}))
+    # what replay found is recorded first: it is reported even if a guard, a self-check or the judge fails later
+    gen_mism = vlib.read_ndjson(mism_path)
+    for m in gen_mism:
+        violations.append(_gen_violation(m))
+    cov.update({"generated_cases": rep["cases"], "generated_mismatches": len(gen_mism),
+                "transitions": rep["vectors"].get("b128", 0) + rep["vectors"].get("u255", 0) + rep["vectors"].get("trip", 0)
+                               + rep["cases"].get("font", 0) + rep["cases"].get("dir", 0),
+                "traces_validated_against_impl": n_cases, "samples": [json.loads(samples[k]) for k in sorted(samples)][:3]})
     if rep["encoder_disagreements"]:
         raise vlib.ToolError("the harness encoder and the TLA+ encoder disagree: %s" % vlib.short(rep["encoder_disagreements"][0], 1500))
     # vacuity guards
@@ -228,6 +271,10 @@ def run(ctx):
     missing += ["glyph count %d" % n for n in range(1, 131) if n not in rep.get("glyph_counts_transformed", [])]
     if not rep.get("lemma_cases"):
         missing.append("bitmap lemma for n = 0")
+    # composite glyphs: every subset of 1..k components carrying WE_HAVE_INSTRUCTIONS, every argument mode, transform
+    # kind and flag bit at every position of composites of 1, 2 and 3 components
+    comp = rep.get("composites", {})
+    missing += ["composite " + k for k in COMPOSITES_NEEDED if not comp.get(k)]
     if missing:
         raise vlib.ToolError("vacuous generator: no case with %s" % missing)
     # the loca counters above are predicted from the input; when the loca family decodes without any mismatch the
@@ -237,10 +284,7 @@ def run(ctx):
         raise vlib.ToolError("loca boundary family decodes cleanly but the rebuilt glyf did not reach 131070 / cross it: %s" %
                              {k: v for k, v in bnd.items() if k.startswith("loca.")})
     ctx.note("boundaries: %s" % json.dumps({k: bnd[k] for k in sorted(bnd) if k.startswith(("bitmap.n=32k", "loca."))}))
-    violations = []
-    gen_mism = vlib.read_ndjson(mism_path)
-    for m in gen_mism:
-        violations.append(_gen_violation(m))
+    ctx.note("composites: %s" % json.dumps({k: comp[k] for k in sorted(comp) if ".instr_at=" in k or "." not in k}))
 
     # binding self-check 1: corrupted expectations must be reported by replay, a corrupted stream by the
     # encoder cross-check
@@ -296,8 +340,33 @@ def run(ctx):
     else:
         bad_box["exp_fonts"] = json.loads(json.dumps(bad_box["fonts"]))
         bad_box["exp_fonts"][0]["glyphs"][-1]["bbox"][3] = 32767
+    # ... and of the composite-position family: a composite whose WE_HAVE_INSTRUCTIONS bit sits on a component
+    # other than the last, expectation corrupted in its instructions (a clean case carries the plant; when the whole
+    # family fails the plant is skipped - the failures are reported)
+    bad_cp, cp_at = None, None
+    with open(cases_path) as f:
+        for ln in f:
+            if '"kind":"font"' in ln[:400] and '"cp"' in ln[:400]:
+                c = json.loads(ln)
+                if json.dumps(c["id"]) in mism_ids:
+                    continue
+                for gi, g in enumerate(c["fonts"][0]["glyphs"]):
+                    if g["kind"] == "composite" and g["instr"] and len(g["comps"]) >= 2 and not (g["comps"][-1]["flags"] & 0x100) \
+                            and any(cc["flags"] & 0x100 for cc in g["comps"]):
+                        bad_cp, cp_at = c, gi
+                        break
+                if bad_cp:
+                    break
+    if bad_cp is None:
+        if not any(m["kind"] == "font" and m["id"] and m["id"][0] == "cp" for m in gen_mism):
+            raise vlib.ToolError("no composite-position case to corrupt for the binding self-check")
+        ctx.note("binding self-check: every composite-position case with the instruction flag before the last component "
+                 "already mismatches; plant skipped")
+    else:
+        bad_cp["exp_fonts"] = json.loads(json.dumps(bad_cp["fonts"]))
+        bad_cp["exp_fonts"][0]["glyphs"][cp_at]["instr"][-1] ^= 1
     sp, sm = ctx.path("selftest_case.ndjson"), ctx.path("selftest_mism.ndjson")
-    vlib.write_ndjson(sp, [planted, bad_pts, bad_lsb, bad_stream, bad_vec] + ([bad_box] if bad_box else []))
+    vlib.write_ndjson(sp, [planted, bad_pts, bad_lsb, bad_stream, bad_vec] + ([bad_box] if bad_box else []) + ([bad_cp] if bad_cp else []))
     srep = vlib.run_harness(binp, ["replay", sp, sm])
     got_keys = sorted(_gen_key(m) for m in vlib.read_ndjson(sm))
     base_keys = sorted(_gen_key(m) for m in gen_mism if m["id"] == planted["id"])
@@ -312,7 +381,8 @@ def run(ctx):
         ctx.note("binding self-check: the carrier font case does not decode on this tree (%s); font-level plants skipped" % base_keys)
     if (not undecodable and (not any("Glyph:simple:points" in k for k in extra) or not any("Hmtx:lsb" in k for k in extra))) \
             or "U255:value" not in extra or len(srep["encoder_disagreements"]) != 1 \
-            or (bad_box and not any(re.search(r"Glyph:(simple|composite):bbox", k) for k in extra)):
+            or (bad_box and not any(re.search(r"Glyph:(simple|composite):bbox", k) for k in extra)) \
+            or (bad_cp and not any("Glyph:composite:instructions" in k for k in extra)):
         raise vlib.ToolError("binding self-check failed: corrupted cases not all reported (keys %s, encoder cross-check %d)" %
                              (extra, len(srep["encoder_disagreements"])))
 
@@ -338,6 +408,12 @@ def run(ctx):
     t = rec["tally"]
     if not t.get("synthetic_big_fonts") or not t.get("fonts_glyf_transformed_more_than_65000_glyphs"):
         raise vlib.ToolError("vacuous trace: no font of more than 65000 glyphs recorded")
+    # synthetic random composites (counted on the generated glyphs, before anything is decoded)
+    lack = [k for k in ("synthetic_composite_fonts", "synthetic_composites_hinted", "synthetic_composites_instr_flag_not_on_last",
+                        "synthetic_composites_of_1_components", "synthetic_composites_of_2_components", "synthetic_composites_of_3_components")
+            if not t.get(k)]
+    if lack:
+        raise vlib.ToolError("vacuous trace: %s = 0" % lack)
     if t.get("repository_glyf_fonts_with_glyph_count_multiple_of_32") and t.get("selected_glyph_count_multiple_of_32") \
             and not t.get("fonts_glyf_transformed_glyph_count_mod32_0_with_explicit_bbox"):
         raise vlib.ToolError("vacuous trace: no font with a glyph count that is a multiple of 32 went through the glyf transform")
@@ -381,6 +457,17 @@ def run(ctx):
     total, printed = _judge_parallel(ctx, trace, "judge", parts=6 if ctx.quick else 12)
     mism = [json.loads(x) for x in printed.get("MISMATCH", [])]
     ctx.note("judge: %d events, %d mismatches" % (total, len(mism)))
+    # (recorded first, so that they are reported even if one of the checks on the judge itself fails below)
+    seen = set()
+    for m in sorted(mism, key=lambda m: m["i"]):
+        if m["case"] == "selftest-corrupt":
+            continue
+        if (m["case"], m["key"]) in seen:
+            continue
+        seen.add((m["case"], m["key"]))
+        violations.append(Violation(m["key"], "recorded %s [%s] event %d: want %s got %s" % (
+            m["ev"], m["case"], m["i"], vlib.short(m["want"], 200), vlib.short(m["got"], 200)),
+            {"source": "recorded", "seed": ctx.seed, "tier": ctx.tier, **m}))
     if printed.get("ENCODER"):
         raise vlib.ToolError("harness encoder fault (the specification decodes the stored bytes to something else than "
                              "the encoder's input): %s" % vlib.short(printed["ENCODER"][0], 800))
@@ -392,16 +479,6 @@ def run(ctx):
     if planted_seen != set(want_kinds):
         raise vlib.ToolError("binding self-check failed: corrupted events accepted by Trace_Woff2: %s" %
                              sorted(set(want_kinds) - planted_seen))
-    seen = set()
-    for m in sorted(mism, key=lambda m: m["i"]):
-        if m["case"] == "selftest-corrupt":
-            continue
-        if (m["case"], m["key"]) in seen:
-            continue
-        seen.add((m["case"], m["key"]))
-        violations.append(Violation(m["key"], "recorded %s [%s] event %d: want %s got %s" % (
-            m["ev"], m["case"], m["i"], vlib.short(m["want"], 200), vlib.short(m["got"], 200)),
-            {"source": "recorded", "seed": ctx.seed, "tier": ctx.tier, **m}))
 
     sample_events = []
     with open(trace) as f:
@@ -409,7 +486,8 @@ def run(ctx):
             if '"ev":"Glyph"' in ln and len(ln) < 3000:
                 sample_events.append(json.loads(ln))
                 break
-    coverage = {
+    coverage = cov
+    coverage.update({
         "states": mc.distinct,
         "transitions": rep["vectors"].get("b128", 0) + rep["vectors"].get("u255", 0) + rep["vectors"].get("trip", 0)
                        + rep["cases"].get("font", 0) + rep["cases"].get("dir", 0),
@@ -423,6 +501,7 @@ def run(ctx):
         "encoder_choices_exercised": rep["choices"],
         "glyph_kinds_generated": rep["glyph_kinds"],
         "size_boundaries_generated": bnd,
+        "composite_positions_generated": comp,
         "glyph_counts_decoded_through_glyf_transform": rep.get("glyph_counts_transformed", []),
         "bitmap_length_lemma": "BitmapLenRule(n) checked by TLC for n = 0..130 (encoder length = decoder length = "
                                "4*floor((n+31)/32), minimal, bits read back, last-glyph bbox split)",
@@ -437,8 +516,7 @@ def run(ctx):
         "explanation": "exhaustive over the bounded model (255UInt16: all 65536 values x all forms; triplets: every entry "
                        "that fits each (dx,dy) of the domain; glyph sequences over a 6-glyph pool x encoder choices); "
                        "recorded traces are seeded samples of repository fonts",
-    }
-    vlib.finish(ctx, LEVEL, coverage, violations, ASSUMPTIONS)
+    })
 
 
 def replay(ctx, path):
